@@ -234,10 +234,17 @@ def _once(path):
 
 
 class Server:
+    _count = 0
+
     def __init__(self):
         env = dict(os.environ)
         env.update(C.impl_env())
         env["PYTHONPATH"] = os.path.join(C.REPO, "src")
+        # every driver process has its own string-hash secret, as separate invocations of the tool have
+        # (PYTHONHASHSEED unset): reference runs, interrupted runs and resumptions of one world are spread over
+        # several of them, so nothing stored may depend on hash() of a string or on set iteration order
+        Server._count += 1
+        env["PYTHONHASHSEED"] = str(1000 + 37 * Server._count)
         self.p = subprocess.Popen(
             [C.PY, "-m", "harness.c10", "serve"], cwd=C.ROOT, env=env,
             stdin=subprocess.PIPE, stdout=subprocess.PIPE, text=True, bufsize=1,
@@ -264,6 +271,7 @@ def run_fresh(job):
     env = dict(os.environ)
     env.update(C.impl_env())
     env["PYTHONPATH"] = os.path.join(C.REPO, "src")
+    env["PYTHONHASHSEED"] = "random"  # as an ordinary invocation of the tool
     jp = job["evlog"] + ".job.json"
     json.dump(job, open(jp, "w"))
     p = subprocess.Popen([C.PY, "-m", "harness.c10", "once", jp], cwd=C.ROOT, env=env, start_new_session=True)
